@@ -15,6 +15,7 @@
 EXTENDS Integers, Sequences, FiniteSets, TLC, Json
 
 CONSTANTS YearLen, NYears, LB, MaxRuns, MaxLookups, Calendars, Reval,
+          WriteOutcomes, \* {TRUE}: cache writes succeed; {TRUE, FALSE}: a run may be unable to write the cache
           MinLookup      \* look-ups are for days >= MinLookup (0, or LB to keep look-backs inside the calendar)
 Days == 0..(YearLen * NYears - 1)
 Years == -1..(NYears - 1)      \* year -1: the (empty) year before the calendar, reached by look-backs
@@ -33,20 +34,20 @@ PubOf(cal) == [d \in (-YearLen)..(YearLen * NYears - 1) |-> IF d \in cal THEN Ra
 
 NoLast == [d |-> -1, res |-> R!Err, want |-> R!Err, dlBefore |-> [y \in Years |-> 0], diskBefore |-> [y \in Years |-> R!NoYear], hadDisk |-> {}, force |-> FALSE]
 Init ==
-  /\ \E cal \in Calendars, t \in Days, tp \in BOOLEAN, f \in BOOLEAN :
-        W = [pub |-> PubOf(cal), today |-> t, todayPub |-> tp, force |-> f]
+  /\ \E cal \in Calendars, t \in Days, tp \in BOOLEAN, f \in BOOLEAN, w \in WriteOutcomes :
+        W = [pub |-> PubOf(cal), today |-> t, todayPub |-> tp, force |-> f, wr |-> w]
   /\ C = R!EmptyLoader(Years)
   /\ nruns = 1 /\ nlook = 0 /\ last = NoLast
-  /\ log = <<[ev |-> "run", today |-> W.today, todayPub |-> W.todayPub, force |-> W.force]>>
+  /\ log = <<[ev |-> "run", today |-> W.today, todayPub |-> W.todayPub, force |-> W.force, wr |-> W.wr]>>
 
 StartRun ==
   /\ nruns < MaxRuns /\ nlook > 0
-  /\ \E t \in Days \cup {YearLen * NYears}, tp \in BOOLEAN, f \in BOOLEAN :
+  /\ \E t \in Days \cup {YearLen * NYears}, tp \in BOOLEAN, f \in BOOLEAN, w \in WriteOutcomes :
         /\ t >= W.today
         \* a rate that was out stays out: same day => todayPub cannot go back
         /\ (t = W.today /\ W.todayPub) => tp
-        /\ W' = [W EXCEPT !.today = t, !.todayPub = tp, !.force = f]
-        /\ log' = Append(log, [ev |-> "run", today |-> t, todayPub |-> tp, force |-> f])
+        /\ W' = [W EXCEPT !.today = t, !.todayPub = tp, !.force = f, !.wr = w]
+        /\ log' = Append(log, [ev |-> "run", today |-> t, todayPub |-> tp, force |-> f, wr |-> w])
   /\ C' = R!NewRun(C)
   /\ nruns' = nruns + 1 /\ nlook' = 0 /\ last' = NoLast
 
